@@ -190,8 +190,15 @@ impl<'a> Arbitrary<'a> for Label {
 pub struct Domain(Vec<Label>);
 
 impl Domain {
+    /* Domain names compare ASCII case insensitively (RFC4343). */
     pub fn ends_with(&self, other: &Self) -> bool {
-        self.0.ends_with(&other.0)
+        self.0.len() >= other.0.len()
+            && self
+                .0
+                .iter()
+                .rev()
+                .zip(other.0.iter().rev())
+                .all(|(mine, theirs)| mine.0.eq_ignore_ascii_case(&theirs.0))
     }
 }
 
